@@ -21,6 +21,7 @@ PathTab ==
    pci  |-> [text |-> "/c/{id}",      segs |-> <<Lit("c"), Par("id")>>],
    prpc |-> [text |-> "/rpc",         segs |-> <<Lit("rpc")>>],
    pz   |-> [text |-> "/z",           segs |-> <<Lit("z")>>],
+   pf   |-> [text |-> "/f",           segs |-> <<Lit("f")>>],
    pempty |-> [text |-> "/e/{}",      segs |-> <<Lit("e"), Par("")>>]]
 PathIds == DOMAIN PathTab
 
